@@ -40,14 +40,22 @@ def obligations(tier):
                 obs.append(Ob(f"standalone-config-{cname}/{spec_name((kind, name, kw))}", dict(spec=[kind, name, kw], n0=n0, grow=grow, host="indicator", tail=0, extra=extra), CFG,
                               weight=10, budget_s=300, max_paths=20000, selfcheck=False))
         obs.append(Ob(f"standalone/{spec_name((kind, name, kw))}", dict(spec=[kind, name, kw], n0=n0, grow=grow, host="indicator", tail=tail), CFG, weight=10, budget_s=900, max_paths=20000, selfcheck=False))
-    for trio in ([("ind", "EMA", dict(period=3)), ("ind", "RSI", dict(period=3)), ("ind", "BBANDS", dict(period=3))],
+    # analysis wrappers over an input that has NO reading on any candle (a misspelt name, a dict field that stays None):
+    # a scan that looks for `length` valid readings instead of over `length` bars walks the whole history
+    for kind, name, kw, w in all_specs(tier):
+        if kind == "amorph" and "indicator" in kw:
+            obs.append(Ob(f"standalone-missing-input/{spec_name((kind, name, kw))}", dict(spec=[kind, name, dict(kw, indicator="no_such_reading")], n0=12, grow=grow, host="indicator", tail=0), CFG,
+                          weight=5, budget_s=300, max_paths=20000, selfcheck=False))
+    for trio in ([("ind", "Supertrend", dict(period=3)), ("amorph", "highest", dict(indicator="Supertrend_3.short", length=3)), ("amorph", "lowest", dict(indicator="Supertrend_3.long", length=3)),
+                  ("amorph", "value_range", dict(indicator="Supertrend_3.short", length=3)), ("amorph", "rising", dict(indicator="Supertrend_3.long", length=3)), ("amorph", "mean_falling", dict(indicator="Supertrend_3.short", length=3))],
+                 [("ind", "EMA", dict(period=3)), ("ind", "RSI", dict(period=3)), ("ind", "BBANDS", dict(period=3))],
                  [("ind", "MACD", dict(fast_period=2, slow_period=3, signal_period=2)), ("ind", "STOCH", dict(period=3, slow_period=2, smoothing_k=2)), ("amorph", "rising", dict(indicator="close", length=2))],
                  # members chained on another member's output, also on a field of a dict-valued reading (dotted input names)
                  [("ind", "MACD", dict(fast_period=2, slow_period=3, signal_period=2)), ("ind", "STDEV", dict(period=3, input_value="MACD_2_3_2.MACD")), ("ind", "BBANDS", dict(period=3, input_value="MACD_2_3_2.signal")),
                   ("ind", "TSI", dict(period=2, smooth_period=2, input_value="MACD_2_3_2.histogram"))],
                  [("ind", "EMA", dict(period=3)), ("ind", "STDEV", dict(period=3, input_value="EMA_3")), ("ind", "STOCH", dict(period=3, slow_period=2, smoothing_k=2, input_value="EMA_3")),
                   ("ind", "SMA", dict(period=3, input_value="EMA_3")), ("ind", "ROC", dict(period=2, input_value="EMA_3"))]):
-        obs.append(Ob("hexital/" + "+".join(s[1] for s in trio), dict(trio=[list(s) for s in trio], n0=14, grow=grow, host="hexital"), CFG, weight=30, budget_s=900, max_paths=20000, selfcheck=False))
+        obs.append(Ob("hexital/" + "+".join(s[1] for s in trio), dict(trio=[list(s) for s in trio], n0=14, grow=grow, host="hexital", **({"tail": 0} if trio[0][1] == "Supertrend" else {})), CFG, weight=30, budget_s=900, max_paths=20000, selfcheck=False))
     return obs
 
 
